@@ -26,7 +26,7 @@ def sh(cmd, cwd=None, timeout=3600):
 def confirm(src, sid):
     meta = json.load(open(os.path.join(src, "meta.json")))
     demo_txt = open(os.path.join(src, "demo.txt")).read()
-    m = re.search(r"[Pp]lace\s+demo_test\.go\s+at:?\s*`?([\w./-]+_test\.go)", demo_txt)
+    m = re.search(r"[Pp]lace[^\n]*?([\w./-]+_seed_test\.go|pkg/[\w./-]+_test\.go)", demo_txt)
     if not m:
         sys.exit("cannot find demo path in demo.txt")
     demo_path = m.group(1)
